@@ -665,6 +665,7 @@ func applyFilter(filter jparse.Node, items reflect.Value, env *environment) (ref
 
 		switch {
 		case jtypes.IsArrayOf(res, jtypes.IsNumber):
+			res = jtypes.Resolve(res)
 			for j, N := 0, res.Len(); j < N; j++ {
 
 				n, _ := jtypes.AsNumber(res.Index(j))
